@@ -32,6 +32,7 @@ def check(m, run):
     n_cb = len(run.obs)
     try:
         _sd0.cb2(m, run)
+        _sd0.ct2(m, run)       # the mesh aggregate equals that of a freshly built container after every rebuild (CT2, shared with C15)
     except _AE as ex:
         run.error(str(ex))
     cb_ok = len(run.obs) > n_cb and all(o.ok for o in run.obs[n_cb:])
